@@ -25,6 +25,7 @@ type g struct {
 	own  []string
 	list []string
 	rec  *kit.Recorder
+	chain int // deep chains built
 }
 
 // Known finding list-mode-key-collision (known_findings.txt): in
@@ -84,7 +85,54 @@ func (x *g) key() string {
 	return x.avoidKnown(rapid.SampledFrom(keyPool).Draw(x.t, "key"))
 }
 
+// pct is an unbiased percentage draw (rapid's integer generators favour small
+// values).
+func (x *g) pct(label string, p int) bool {
+	n := 0
+	for i := 0; i < 7; i++ {
+		n <<= 1
+		if rapid.Bool().Draw(x.t, label) {
+			n |= 1
+		}
+	}
+	return n*100/128 < p
+}
+
+var chainDepths = []int{101, 100, 33, 17, 64, 128, 150, 255, 300, 9}
+
+// deepChain nests N containers (lists and maps, mixed) under one value, with
+// a string at the bottom and now and then a sibling string on the way down:
+// "nested lists and maps" has no depth bound in the property.
+func (x *g) deepChain(v pcommon.Value) {
+	n := rapid.SampledFrom(chainDepths).Draw(x.t, "chaindepth")
+	x.chain++
+	for i := 0; i < n; i++ {
+		if rapid.Bool().Draw(x.t, "chainmap") {
+			m := v.SetEmptyMap()
+			if rapid.IntRange(0, 7).Draw(x.t, "chainsib") == 0 {
+				m.PutStr(x.key(), x.str())
+			}
+			v = m.PutEmpty(x.key())
+		} else {
+			sl := v.SetEmptySlice()
+			if rapid.IntRange(0, 7).Draw(x.t, "chainsib") == 0 {
+				sl.AppendEmpty().SetStr(x.str())
+			}
+			v = sl.AppendEmpty()
+		}
+	}
+	if rapid.Bool().Draw(x.t, "chainleafbytes") {
+		v.SetEmptyBytes().FromRaw([]byte(x.str()))
+	} else {
+		v.SetStr(x.str())
+	}
+}
+
 func (x *g) val(v pcommon.Value, depth int) {
+	if depth == 0 && x.pct("deepchain", 2) {
+		x.deepChain(v)
+		return
+	}
 	max := 7
 	if depth >= 3 {
 		max = 5
@@ -282,6 +330,9 @@ func genCase(t *rapid.T, rec *kit.Recorder) *Case {
 			b, _ = (&pmetric.ProtoMarshaler{}).MarshalMetrics(x.metrics())
 		}
 		c.Docs = append(c.Docs, b)
+	}
+	if x.chain > 0 && rec != nil {
+		rec.Label("gen:value_nested_9_to_300_levels_deep", 1)
 	}
 	return c
 }
